@@ -737,9 +737,7 @@ impl Tally {
             }
         }
         for (k, n) in &self.extra {
-            if *n > 0 {
-                acc.count(k, *n);
-            }
+            acc.count(k, *n);
         }
         for (k, (n, nt)) in &self.outcomes {
             acc.evaluations += n;
@@ -891,14 +889,15 @@ fn check_transition(
         {
             tally.counters[C_AUTO_CHANGED_OBS] += 1;
         }
-        if let Op::Batch(es) = op {
-            // accepted although neither order of single calls could start with either element alone
-            let alone_fail = es.iter().all(|(n, s)| {
-                matches!(cfg.sources[*n][*s].kind, Kind::Super(_) | Kind::Includes(_)) && !nonempty_before
-            });
-            if alone_fail || (!nonempty_before && es.iter().any(|(n, s)| matches!(cfg.sources[*n][*s].kind, Kind::Super(_) | Kind::Includes(_)))) {
-                tally.counters[C_BATCH_ONLY_VALID_TOGETHER] += 1;
-            }
+        if let Op::Batch(es) = op
+            && !nonempty_before
+            && es
+                .iter()
+                .any(|(n, s)| matches!(cfg.sources[*n][*s].kind, Kind::Super(_) | Kind::Includes(_)))
+        {
+            // accepted on an empty instance although one element refers to the other one: that
+            // element alone is refused (missing parent / unknown template / cycle through itself)
+            tally.counters[C_BATCH_ONLY_VALID_TOGETHER] += 1;
         }
         let defs = cfg
             .names
@@ -1034,14 +1033,18 @@ struct Seen {
     accepted: u8,
     /// one more representative whose history ends in a refused call (instance after a rollback)
     rolled_back: bool,
+    /// how many representatives of this state have been expanded (every operation applied)
+    expanded: u8,
 }
 
 struct BfsSummary {
     states: u64,
+    states_expanded: u64,
+    states_expanded_twice: u64,
+    states_expanded_thrice: u64,
     states_with_alternative: u64,
     states_with_rollback_rep: u64,
     expanded: u64,
-    levels: Vec<Json>,
     closed: bool,
 }
 
@@ -1079,15 +1082,17 @@ type FailCand = (State, u8, u32, u16, u8);
 /// successors are merged in (node, op) order.
 fn bfs(cfg: &Cfg, max_depth: usize, distinct_from_len: usize, threads: usize, tally: &mut Tally) -> BfsSummary {
     let mut visited: HashMap<State, Seen> = HashMap::new();
-    visited.insert(EMPTY, Seen { accepted: 1, rolled_back: false });
+    visited.insert(EMPTY, Seen { accepted: 1, rolled_back: false, expanded: 0 });
     let mut frontier = vec![BNode { st: EMPTY, hist: vec![] }];
     let mut oracles: Vec<Oracle> = (0..threads).map(|_| Oracle::new(8)).collect();
     let mut summary = BfsSummary {
         states: 1,
+        states_expanded: 0,
+        states_expanded_twice: 0,
+        states_expanded_thrice: 0,
         states_with_alternative: 0,
         states_with_rollback_rep: 0,
         expanded: 0,
-        levels: vec![],
         closed: false,
     };
     for depth in 1..=max_depth {
@@ -1095,6 +1100,9 @@ fn bfs(cfg: &Cfg, max_depth: usize, distinct_from_len: usize, threads: usize, ta
             break;
         }
         let mut results: Vec<(Tally, Vec<OkCand>, Vec<FailCand>)> = vec![];
+        for node in &frontier {
+            visited.entry(node.st).or_default().expanded += 1;
+        }
         let visited_ref = &visited;
         let frontier_ref = &frontier;
         std::thread::scope(|s| {
@@ -1202,14 +1210,12 @@ fn bfs(cfg: &Cfg, max_depth: usize, distinct_from_len: usize, threads: usize, ta
         }
         // best rollback representative per state: max interest, then first (node, op)
         fails.sort_by(|a, b| a.0.cmp(&b.0).then(b.1.cmp(&a.1)).then(a.2.cmp(&b.2)).then(a.3.cmp(&b.3)));
-        let mut rollback_reps = 0u64;
         for (st, _, i, opi, res) in fails {
             let n = visited.entry(st).or_default();
             if n.rolled_back {
                 continue;
             }
             n.rolled_back = true;
-            rollback_reps += 1;
             summary.states_with_rollback_rep += 1;
             let mut hist = frontier[i as usize].hist.clone();
             hist.push((opi, res));
@@ -1224,15 +1230,16 @@ fn bfs(cfg: &Cfg, max_depth: usize, distinct_from_len: usize, threads: usize, ta
         summary.states += new_states;
         tally.extra.insert(format!("bfs_config{}_depth{depth}_nodes_expanded", cfg.id), frontier.len() as u64);
         tally.extra.insert(format!("bfs_config{}_depth{depth}_new_states", cfg.id), new_states);
-        summary.levels.push(json!({
-            "depth": depth, "nodes_expanded": frontier.len(), "new_states": new_states,
-            "new_representatives_accepted_path": next.len() as u64 - rollback_reps,
-            "new_representatives_after_rollback": rollback_reps}));
         frontier = next;
         if new_states == 0 {
             // every state discovered so far has been expanded and led to known states only
             summary.closed = true;
         }
+    }
+    for s in visited.values() {
+        summary.states_expanded += (s.expanded >= 1) as u64;
+        summary.states_expanded_twice += (s.expanded >= 2) as u64;
+        summary.states_expanded_thrice += (s.expanded >= 3) as u64;
     }
     summary
 }
@@ -1447,11 +1454,13 @@ fn main() {
             let mut tally = Tally::default();
             let s = bfs(cfg, bfs_depth, depth + 1, threads, &mut tally);
             tally.extra.insert("bfs_states".into(), s.states);
+            tally.extra.insert("bfs_states_expanded".into(), s.states_expanded);
+            tally.extra.insert("bfs_states_expanded_from_2_histories".into(), s.states_expanded_twice);
+            tally.extra.insert("bfs_states_expanded_from_3_histories".into(), s.states_expanded_thrice);
             tally.extra.insert("bfs_states_with_alternative_path".into(), s.states_with_alternative);
             tally.extra.insert("bfs_states_with_rollback_representative".into(), s.states_with_rollback_rep);
             tally.extra.insert("bfs_nodes_expanded".into(), s.expanded);
             tally.extra.insert("bfs_closed_configs".into(), s.closed as u64);
-            tally.samples.push(json!({"fallback_prefixes": cfg.prefixes, "bfs_levels": s.levels, "state_space_closed": s.closed}));
             tally.flush(acc);
         },
     );
@@ -1460,6 +1469,9 @@ fn main() {
         let mut snapshot: BTreeMap<&str, u64> = BTreeMap::new();
         for n in COUNTER_NAMES.iter().copied().chain([
             "bfs_states",
+            "bfs_states_expanded",
+            "bfs_states_expanded_from_2_histories",
+            "bfs_states_expanded_from_3_histories",
             "bfs_states_with_alternative_path",
             "bfs_states_with_rollback_representative",
             "bfs_closed_configs",
@@ -1469,7 +1481,9 @@ fn main() {
         let c = |n: &str| snapshot[n];
         let transitions = c("transitions");
         run.extra("states", json!(c("bfs_states")));
-        run.extra("states_expanded_from_two_histories", json!(c("bfs_states_with_alternative_path")));
+        run.extra("states_fully_expanded", json!(c("bfs_states_expanded")));
+        run.extra("states_expanded_from_two_histories", json!(c("bfs_states_expanded_from_2_histories")));
+        run.extra("states_expanded_from_three_histories", json!(c("bfs_states_expanded_from_3_histories")));
         run.extra("state_space_closed_in_configs", json!(c("bfs_closed_configs")));
         run.extra("transitions", json!(transitions));
         run.extra("traces_validated_against_impl", json!(transitions));
@@ -1497,7 +1511,8 @@ fn main() {
         run.guard("fallback-prefix-observable", c("fallback_prefix_resolution_observed") > 0, format!("{}", c("fallback_prefix_resolution_observed")));
         run.guard("component-shadowing", c("component_shadowed_by_priority") > 0, format!("{}", c("component_shadowed_by_priority")));
         run.guard("three-level-super-chain", c("super_chain_of_three") > 0, format!("{}", c("super_chain_of_three")));
-        run.guard("alternative-paths", c("bfs_states_with_alternative_path") > 10, format!("{} states expanded from a second history", c("bfs_states_with_alternative_path")));
+        run.guard("alternative-paths", c("bfs_states_expanded_from_2_histories") > 10,
+            format!("{} of {} expanded states were expanded from a second history, {} also from a third", c("bfs_states_expanded_from_2_histories"), c("bfs_states_expanded"), c("bfs_states_expanded_from_3_histories")));
     }
     run.finish();
 }
